@@ -122,7 +122,22 @@ func c07ScanContent(p *Prog, ls *Lockset, r *Report) {
 					collectInvokes(ifi.Cond, names, 0)
 				}
 			}
+			// the scan may sit in an extracted look-up helper: its own conditions count
+			forEachCallOwn(fn, func(site ssa.CallInstruction) {
+				c, ok := site.(*ssa.Call)
+				if !ok || !t[c] {
+					return
+				}
+				if h := c.Call.StaticCallee(); h != nil && p.helperCandidate(h) {
+					for _, hb := range h.Blocks {
+						if ifi, ok := hb.Instrs[len(hb.Instrs)-1].(*ssa.If); ok {
+							collectInvokes(ifi.Cond, names, 0)
+						}
+					}
+				}
+			})
 		}
+		delete(names, "")
 		r.Check("R3", fmt.Sprintf("field:EntityLocal.features|fn:%s|scan-compares", FnName(originOf(fn))), names["Type"] && names["Role"], p.InstrPos(a.Ins), fmt.Sprintf("the deciding conditions call %v on the existing elements", sortedKeys(names)))
 	}
 }
